@@ -4,11 +4,11 @@
     selected by the name the deserializer reports, records in schema order, decimals as strings)
     the serializer returns Ok with exactly the specification's bytes; (b) the facts about the
     generated union lookup table this rests on; (c) unrepresentable values at the leaves are
-    rejected. What is NOT proved (full statement kept visible as C02_sound_statement): soundness for
-    every other presentation the serializer accepts; those cells are covered by the correspondence
-    run (model = crate on every (serde call x node kind) cell) and by the decode-back oracle. *)
+    rejected; (d) SOUNDNESS for every accepted presentation (C02_sound): Ok implies the bytes are a
+    valid encoding of a conforming value. The correspondence run ties the model to the crate on
+    every (serde call x node kind) cell. *)
 From Coq Require Import List NArith ZArith.
-Require Import Base Kinds Schema Varint Utf8 Sval Ser De AvroValue Encoding Denote Wf SerProofs SerLeafProofs.
+Require Import Base Kinds Schema Varint Utf8 Sval Ser De AvroValue Encoding Denote Wf SerProofs SerLeafProofs SerSoundProofs.
 Import ListNotations.
 
 Theorem C02_canonical : forall Sc n v st,
@@ -27,11 +27,30 @@ Theorem C02_to_datum : forall Sc root v slow,
   to_datum Sc slow (present Sc root v) = Ok (spec_encode Sc root v).
 Proof. exact to_datum_present_decimal. Qed.
 
-(* the full soundness statement (not proved; decided by correspondence + decode-back oracle) *)
-Definition C02_sound_statement : Prop :=
-  forall Sc root sv slow bs, schema_wf Sc = true -> fnode_at Sc 0 = Some root ->
-    to_datum Sc slow sv = Ok bs ->
-    exists e, layout_ok e = true /\ conforms Sc root (erase e) = true /\ encode_e Sc root e = bs.
+(* SOUNDNESS for EVERY accepted presentation: whatever serde shape the value was presented in (all
+   22 Serializer entry points x all node kinds, union selection by name or by type), if to_datum
+   returns Ok the bytes are a valid encoding (encode_e of a well-laid-out evalue) of a value that
+   conforms to the schema. [sval_typed]: the presentation is something a Rust caller can build
+   (str arguments are UTF-8, char is a scalar value, map keys and values alternate as serde
+   requires). [schema_lim]: fixed decimals of at most 16 bytes (the documented limit) and union /
+   enum sizes below 2^63. *)
+Theorem C02_sound : forall Sc root sv slow bs,
+  schema_lim Sc = true -> sval_typed sv = true ->
+  fnode_at Sc 0 = Some root -> to_datum Sc slow sv = Ok bs ->
+  exists e, layout_ok e = true /\ conforms Sc root (erase e) = true /\ encode_e Sc root e = bs.
+Proof. exact SerSoundProofs.C02_sound. Qed.
+Theorem C02_sound_node : forall Sc n sv st st',
+  schema_lim Sc = true -> node_lim n = true -> sval_typed sv = true ->
+  SerProofs.pool_ok st -> s_budget st = None ->
+  ser Sc n sv st = (Ok tt, st') ->
+  exists e, layout_ok e = true /\ conforms Sc n (erase e) = true /\ s_out st' = s_out st ++ encode_e Sc n e.
+Proof. exact ser_sound. Qed.
+(* the side conditions are needed: a fixed decimal of 17 bytes is written (sign-extended) although
+   the crate's own decoder stops at 16; a str that is not UTF-8 or a map value without a key
+   cannot come from safe Rust *)
+Check C02_sound_statement_refuted.
+Check untyped_str_refuted.
+Check map_protocol_refuted.
 
 (* facts about the union lookup table REGENERATED from union_variants_per_type_lookup.rs *)
 Theorem C02_unnamed_never_union : forall Sc ks key d k,
